@@ -61,3 +61,10 @@ Definition x_speed_le_cfg (net : list Linkf) (rvs : list (RV (F:=float))) (ttype
     (paths : list (list Z)) (impl : list (float * float)) : list out :=
   res_outs (bind (make_train_params rvs ttype tm tl) (fun tp => extend_many net (new_path tp) paths))
            (fun p => [OB (profile_le impl (p_speed_points p))]).
+
+(* extend calls, then PathTpc::clear(offset_back): the remaining path (geometry + speed profile) and the counts
+   of what was dropped *)
+Definition x_clear (net : list Linkf) (tp : TPf) (paths : list (list Z)) (x : float) : list out :=
+  res_outs (bind (extend_many net (new_path tp) paths) (fun p => clear p x))
+    (fun r => geom_outs (fst r) ++ speed_outs (fst r)
+              ++ [OZ (Z.of_nat (lp_grade_count (snd r))); OZ (Z.of_nat (lp_curve_count (snd r))); OZ (Z.of_nat (lp_cat_count (snd r)))]).
